@@ -1,5 +1,5 @@
 (* C01 — every request is answered with its own reply, in issue order.  Statements only. *)
-From MPD Require Import Bytes Tables BuilderModel LoopModel LoopProofs LoopSpec LoopSpecProofs ServerModel DriverLoop LoopRefine LoopRefineProofs LoopCancel LoopCancelProofs.
+From MPD Require Import Bytes Tables BuilderModel LoopModel LoopProofs LoopSpec LoopSpecProofs ServerModel DriverLoop LoopRefine LoopRefineProofs LoopCancel LoopCancelProofs LoopMute LoopMuteProofs.
 Open Scope N_scope.
 
 (* for EVERY schedule: whatever a responder is handed is the server's reply to the bytes of a request
@@ -125,6 +125,14 @@ Example c01_cancel_example :
     noidle_line ++ b "status" ++ [LF] ++ b "stats" ++ [LF] ++ b "currentsong" ++ [LF].
 Proof. exact ex_cancel_summary. Qed.
 
+(* the application dropping its ConnectionEvents does not touch the replies: segment by segment the same results, the same writes, the
+   same panics as in the run in which the listener is kept (LoopMute.v; the statement about whole states is c05_listener_erasure) *)
+Theorem c01_exec_listener_dropped : forall cf ls, mute_ok ls = true ->
+  map g_res (snd (xrun (xinit cf) ls)) = map g_res (snd (xrun (xinit cf) (map mute_label ls))) /\
+  map g_w (snd (xrun (xinit cf) ls)) = map g_w (snd (xrun (xinit cf) (map mute_label ls))) /\
+  map g_panic (snd (xrun (xinit cf) ls)) = map g_panic (snd (xrun (xinit cf) (map mute_label ls))).
+Proof. exact exec_mute_results. Qed.
+
 Print Assumptions c01_own_reply.
 Print Assumptions c01_issue_order.
 Print Assumptions c01_partial_failure.
@@ -135,3 +143,4 @@ Print Assumptions c01_cancel_erasure.
 Print Assumptions c01_exec_cancel.
 Print Assumptions c01_exec_cancel_others.
 Print Assumptions c01_exec_cancel_session.
+Print Assumptions c01_exec_listener_dropped.
